@@ -400,8 +400,11 @@ def equivalent_parameters(model, back):
             out.append(f"roundtrip: number of {sel} differs: {r1.names} vs {r2.names}")
             continue
         if sel == "etas" and list(r1.names) != list(r2.names):
-            out.append(f"roundtrip: eta names differ: {r1.names} vs {r2.names}")
-            continue
+            # the name of the placeholder eta that NONMEM code needs when the model has no random effect is not part of the
+            # model (variance fixed to 0; pharmpy calls it eta_dummy in memory)
+            if not (list(r1.names) == ["eta_dummy"] and len(r2.names) == 1):
+                out.append(f"roundtrip: eta names differ: {r1.names} vs {r2.names}")
+                continue
         env1 = {p.name: float(p.init) for p in model.parameters}
         env2 = {p.name: float(p.init) for p in back.parameters}
         n = len(r1.names)
